@@ -94,9 +94,9 @@ func (c *chunkConn) Read(p []byte) (int, error) {
 	}
 	return n, nil
 }
-func (c *chunkConn) Peek(n int) ([]byte, error)  { return nil, errors.New("not used by DecodeBlocked") }
+func (c *chunkConn) Peek(n int) ([]byte, error) { return nil, errors.New("not used by DecodeBlocked") }
 func (c *chunkConn) Discard(n int) (int, error) { return 0, errors.New("not used by DecodeBlocked") }
-func (c *chunkConn) Size() int                   { return 0 }
+func (c *chunkConn) Size() int                  { return 0 }
 
 var errInjected = errors.New("verifmon: injected connection failure")
 
